@@ -84,13 +84,13 @@ let parse_out (outs : string list) : rstep list =
       let ev w = add (fun s -> { s with evs = (x, w) :: s.evs }) in
       match split ':' t with
       | ["d"; s; es; d] -> ev (WData (nd s, bl es, chars_of_hex d))
-      | ["h"; s; es; pr; fid; lens] ->
+      | ["h"; s; es; pr; fid; lens; tab] ->
           let q = nb.(xi) in nb.(xi) <- q + 1;
-          ev (WBlock (nd s, None, bl es, prio_of pr, nat_of_int q, nd fid));
+          ev (WBlock (nd s, None, bl es, prio_of pr, nat_of_int q, nd fid, nd tab));
           add (fun st -> { st with chunks = (x, pr <> "-", false, ints_of lens) :: st.chunks })
-      | ["u"; s; pm; fid; lens] ->
+      | ["u"; s; pm; fid; lens; tab] ->
           let q = nb.(xi) in nb.(xi) <- q + 1;
-          ev (WBlock (nd s, Some (nd pm), false, None, nat_of_int q, nd fid));
+          ev (WBlock (nd s, Some (nd pm), false, None, nat_of_int q, nd fid, nd tab));
           add (fun st -> { st with chunks = (x, false, true, ints_of lens) :: st.chunks })
       | ["p"; s; pr] -> (match prio_of pr with Some p -> ev (WPrio (nd s, p)) | None -> failwith "p")
       | ["r"; s; c] -> ev (WRst (nd s, nd c))
@@ -109,7 +109,7 @@ let order_of (evs : (side * wire) list) (x : side) : n list =
   let seen = ref [] in
   List.iter (fun (t, w) ->
     if t = x then match w with
-      | WData (s, _, _) | WBlock (s, _, _, _, _, _) | WPrio (s, _) | WRst (s, _) ->
+      | WData (s, _, _) | WBlock (s, _, _, _, _, _, _) | WPrio (s, _) | WRst (s, _) ->
           if not (List.mem s !seen) then seen := s :: !seen
       | _ -> ()) evs;
   List.rev !seen
@@ -122,9 +122,9 @@ let win_string (fl : flow) (mf : n) : string =
 
 let pr_wire = function
   | WData (s, es, d) -> Printf.sprintf "d:%s:%b:%dB" (dec_of_n s) es (List.length d)
-  | WBlock (s, p, es, pr, q, fid) ->
-      Printf.sprintf "%s:%s:%b:%s:seq%d:fid%s" (if p = None then "h" else "u") (dec_of_n s) es
-        (match pr with None -> "-" | Some p -> dec_of_n p.pdep ^ "." ^ dec_of_n p.pweight) (int_of_nat q) (dec_of_n fid)
+  | WBlock (s, p, es, pr, q, fid, tab) ->
+      Printf.sprintf "%s:%s:%b:%s:seq%d:fid%s:tab%s" (if p = None then "h" else "u") (dec_of_n s) es
+        (match pr with None -> "-" | Some p -> dec_of_n p.pdep ^ "." ^ dec_of_n p.pweight) (int_of_nat q) (dec_of_n fid) (dec_of_n tab)
   | WPrio (s, _) -> "p:" ^ dec_of_n s
   | WRst (s, c) -> "r:" ^ dec_of_n s ^ ":" ^ dec_of_n c
   | WSettings _ -> "s" | WAck -> "a" | WPing _ -> "g" | WGoaway _ -> "y"
@@ -137,7 +137,7 @@ let norm_evs evs =
   (* C08 does not compare credit (WINDOW_UPDATE values are C09's subject and fix) *)
   if prop <> "C09" then List.filter (fun (_, w) -> match w with WWin _ -> false | _ -> true) evs else
   List.map (fun (x, w) -> match w with
-    | WBlock (s, p, _, pr, q, _) -> (x, WBlock (s, p, false, pr, q, N0))
+    | WBlock (s, p, _, pr, q, _, _) -> (x, WBlock (s, p, false, pr, q, N0, N0))
     | w -> (x, w)) evs
 
 let rec take k l = if k <= 0 then [] else match l with [] -> [] | a :: t -> a :: take (k - 1) t
@@ -180,10 +180,31 @@ let judge _name ins outs =
       if errstep && valid_upto_err && (List.nth rsteps (List.length good)).err = Some "PREFACE" then
         VPropfail ("preface_e2e", "Config.Proxy refused a valid client preface delivered in pieces (" ^ mode ^ ")")
       else if errstep && valid_upto_err then
+        let k = List.length good in
+        let lt = List.nth ltoks k in
+        (* a header block sent while the other endpoint's HEADER_TABLE_SIZE change is not yet
+           acknowledged by the sender (known finding C08-K4) *)
+        let inflight =
+          (lt.[0] = 'H' || lt.[0] = 'C' || lt.[0] = 'U') &&
+          (let y = String.sub lt 1 1 in
+           (* the j-th ACK from y acknowledges the j-th SETTINGS frame of the other endpoint *)
+           let ns = ref 0 and na = ref 0 and tabs = ref [] in
+           List.iteri (fun i t ->
+             if i < k then begin
+               if t.[0] = 'S' && String.sub t 1 1 <> y then begin
+                 incr ns;
+                 let kv = if String.length t > 3 then String.sub t 3 (String.length t - 3) else "" in
+                 if List.exists (fun e -> String.length e > 2 && String.sub e 0 2 = "1=") (split ',' kv)
+                 then tabs := !ns :: !tabs
+               end
+               else if t.[0] = 'A' && String.sub t 1 1 = y && !na < !ns then incr na
+             end) ltoks;
+           List.exists (fun j -> j > !na) !tabs) in
         VPropfail ("relay_error",
-                   Printf.sprintf "relay stopped at label %d (%s) of an RFC-valid script: %s"
-                     (List.length good) (List.nth ltoks (List.length good))
-                     (match (List.nth rsteps (List.length good)).err with Some e -> e | None -> ""))
+                   Printf.sprintf "relay stopped at label %d (%s) of an RFC-valid script: %s%s"
+                     k lt
+                     (match (List.nth rsteps k).err with Some e -> e | None -> "")
+                     (if inflight then " hpack-table-size-in-flight" else ""))
       else
       (* 2. property oracles on the real observation *)
       let ls = take (List.length o) labels in
@@ -197,10 +218,11 @@ let judge _name ins outs =
           else None
         else
           if List.exists (List.exists (fun (_, w) -> match w with
-               | WBlock (_, _, _, _, _, fid) -> int_of_n fid = 999 | _ -> false)) o
+               | WBlock (_, _, _, _, _, fid, _) -> int_of_n fid = 999 | _ -> false)) o
           then Some "header_decode"
           else if not (b_faithful false ls o) then Some "stream_faithful"
           else if not (b_direct ls o) then Some "direct_identical"
+          else if not (b_table ls o) then Some "hpack_table_size"
           else if not (c08_prio_ok ls o) then Some "headers_priority_flag"
           else None in
       (* header fragments vs the receiver's max frame size in force (C09) *)
@@ -226,8 +248,9 @@ let judge _name ins outs =
                   | "stream_window" -> b_stream lsi oi | "frame_size" -> b_frame lsi oi
                   | "no_stranding" -> b_strand lsi oi | "stream_faithful" -> b_faithful false lsi oi
                   | "direct_identical" -> b_direct lsi oi
+                  | "hpack_table_size" -> b_table lsi oi
                   | "header_decode" -> not (List.exists (List.exists (fun (_, w) -> match w with
-                        | WBlock (_, _, _, _, _, fid) -> int_of_n fid = 999 | _ -> false)) oi)
+                        | WBlock (_, _, _, _, _, fid, _) -> int_of_n fid = 999 | _ -> false)) oi)
                   | _ -> c08_prio_ok lsi oi in
                 if not okc then begin k := i; raise Exit end
               done
